@@ -23,8 +23,8 @@ CODE_SPAN = re.compile(r'(?<!`)(`+)(?!`).+?(?<!`)\1(?!`)')
 RAW_TAG = re.compile(r'<[A-Za-z/!?][^<>\n]*>')
 
 
-def md(x, L):
-    return mt.render(x, 'Markdown', max_line_length=L)
+def md(x, L, nw=False):
+    return mt.render(x, 'Markdown', max_line_length=L, normalize_whitespace=nw)
 
 
 def protected(doc):
@@ -69,9 +69,10 @@ def kind_of_line(line):
 
 def check(ctx, text, L, case, protected_lines=None):
     ctx.ev()
+    nw = bool(case.get('nw'))
     try:
-        m = md(text, L)
-        m_again = md(m, L)
+        m = md(text, L, nw)
+        m_again = md(m, L, nw)
         hx = mt.html(text)
         hm = mt.html(m)
         px = protected(mt.parse(text, 'Html'))
@@ -80,6 +81,7 @@ def check(ctx, text, L, case, protected_lines=None):
         ctx.count('ambient', 'C01:' + mt.exc_site(e))
         return
     ctx.count('L', 'L=%d' % L)
+    ctx.count('options', 'normalize_whitespace=%s' % nw)
     bad = False
     if normalize_ws(hx) != normalize_ws(hm):
         a, b = normalize_ws(hx), normalize_ws(hm)
@@ -172,7 +174,7 @@ def check_seed(ctx, seed, Ls):
         ctx.count('generator', 'rejected by own safety rules')
         return None
     for L in Ls:
-        check(ctx, doc.text, L, {'kind': 'generated', 'seed': seed, 'L': L})
+        check(ctx, doc.text, L, {'kind': 'generated', 'seed': seed, 'L': L, 'nw': (seed + L) % 5 == 0})
     return doc
 
 
